@@ -451,6 +451,11 @@ func (W *vWorld) opSet(tag string) {
 
 func (W *vWorld) opShrink(tag string) {
 	var more bool
+	if !vLocked && W.standing[0] != nil && vPick("unregister-first-standing-filter", 2) == 1 {
+		W.standing[0].Unregister() // later cache entries keep their ids but move to other slots
+		W.standing[0] = nil
+		W.nStanding--
+	}
 	if vLocked {
 		W.expectReject(tag+"/shrink", func() { W.w.Shrink() })
 		return
@@ -862,6 +867,7 @@ func (W *vWorld) opBatch(kind int, tag string) {
 		vcheck(tag+"/reset/no-handle-alive", okDead)
 		W.n = 0 // handles issued before the Reset may be issued again
 		W.nStanding = 0
+		W.standing[0] = nil
 	}
 	W.checkAll(tag + "/batch")
 	vreach(tag + "/batch")
